@@ -2,7 +2,7 @@
 from . import sesscheck as SC
 
 MODULE = "Props.C16"
-PROFILE = {"publish": 20, "ack": 10, "inbound": 3, "connect": 6, "fault": 3, "restart": 2, "damage": 9, "call": 1, "response": 1,
+PROFILE = {"wrap": 0.15, "publish": 20, "ack": 10, "inbound": 3, "connect": 6, "fault": 3, "restart": 2, "damage": 9, "call": 1, "response": 1,
            "hostile": 0.3, "close": 0.1, "bigbuf": 0.05}
 
 
